@@ -1082,6 +1082,84 @@ def gen_http(repo, consts):
     if ty != "B":
         fail(f, "dishonest type")
     out.append("Definition gen_dishonest (m : option rec) (hs : list pkt_header) : bool :=\n  %s." % t)
+    out.append(gen_http_sig_match(repo, consts, hattrs))
+    return "\n".join(out)
+
+
+def set_comp(node, env, var_ty, src_name, src_term):
+    """{elt for x in <src_name> [if cond]}  ->  map (fun x => elt) (filter (fun x => cond) src)  (a set of byte strings as the list of its members)"""
+    if not (isinstance(node, ast.SetComp) and len(node.generators) == 1 and isinstance(node.generators[0].target, ast.Name)
+            and dotted(node.generators[0].iter) == src_name and not node.generators[0].is_async):
+        fail(node, "set comprehension shape")
+    g = node.generators[0]
+    v = g.target.id
+    saved = dict(env.locals)
+    env.locals[v] = var_ty
+    src = src_term
+    for c in g.ifs:
+        src = "(filter (fun %s => %s) %s)" % (v, truthy(c, env), src)
+    t, ty = expr(node.elt, env)
+    env.locals = saved
+    if ty != "TEXT":
+        fail(node, "set members are not byte strings")
+    return "(map (fun %s => %s) %s)" % (v, t, src)
+
+
+def gen_http_sig_match(repo, consts, hattrs):
+    """http_signatures_match and the two header_names sets it compares (HTTPSignature.__post_init__, HTTPPacketSignature.__post_init__)."""
+    out = []
+
+    def post_init(path, cls, var_ty, src_term):
+        f = find_function(ast.parse(open(os.path.join(repo, path)).read()), "__post_init__", cls=cls)
+        body = [s for s in f.body if not (isinstance(s, ast.Expr) and isinstance(s.value, ast.Constant))]
+        if not (len(body) == 1 and isinstance(body[0], ast.Assign) and len(body[0].targets) == 1 and dotted(body[0].targets[0]) == "self.header_names"):
+            fail(f, "%s.__post_init__ shape" % cls)
+        return set_comp(body[0].value, Env({}, consts, {}, hattrs), var_ty, "self.headers", src_term)
+    out.append("Definition gen_sig_header_names (s : http_sig) : list text :=\n  %s." % post_init("pyp0f/database/signatures/http.py", "HTTPSignature", "SHDR", "(hs_headers s)"))
+    out.append("Definition gen_pkt_header_names (hs : list pkt_header) : list text :=\n  %s." % post_init("pyp0f/net/signatures/http.py", "HTTPPacketSignature", "PHDR", "hs"))
+    f = find_function(ast.parse(open(os.path.join(repo, "pyp0f/fingerprint/http.py")).read()), "http_signatures_match")
+    if [a.arg for a in f.args.args] != ["signature", "packet_signature"]:
+        fail(f, "http_signatures_match parameters")
+    body = [s for s in f.body if not (isinstance(s, ast.Expr) and isinstance(s.value, ast.Constant))]
+    if not (len(body) == 2 and isinstance(body[0], ast.Assign) and len(body[0].targets) == 1 and isinstance(body[0].targets[0], ast.Name)
+            and dotted(body[0].value) == "packet_signature.header_names" and isinstance(body[1], ast.Return)):
+        fail(f, "http_signatures_match shape")
+    pk = body[0].targets[0].id
+    sets = {"signature.header_names": "(gen_sig_header_names s)", "signature.absent_headers": "(hs_absent s)", pk: "(gen_pkt_header_names hs)"}
+    env = Env({"signature.version": ("(hs_version s)", "Z"), "packet_signature.version": ("ver", "Z")}, consts, {}, {})
+
+    def setop(e):
+        """X.issubset(Y) / X.intersection(Y) over the three known sets -> (method, X, Y) or None"""
+        if isinstance(e, ast.Call) and isinstance(e.func, ast.Attribute) and e.func.attr in ("issubset", "intersection", "isdisjoint") and len(e.args) == 1 and not e.keywords:
+            a, b = dotted(e.func.value), dotted(e.args[0])
+            if a in sets and b in sets:
+                return e.func.attr, sets[a], sets[b]
+            fail(e, "set operation on an unknown set")
+        return None
+
+    def conj(v):
+        so = setop(v)
+        if so:
+            if so[0] == "issubset":
+                return "(gen_subset %s %s)" % so[1:]
+            if so[0] == "isdisjoint":
+                return "(negb (gen_meets %s %s))" % so[1:]
+            return "(gen_meets %s %s)" % so[1:]                 # truthiness of the intersection
+        if isinstance(v, ast.UnaryOp) and isinstance(v.op, ast.Not):
+            return "(negb %s)" % conj(v.operand)
+        return truthy(v, env)
+    r = body[1].value
+    vals = list(r.values) if isinstance(r, ast.BoolOp) and isinstance(r.op, ast.And) else [r]
+    last = vals[-1]
+    if not (isinstance(last, ast.Call) and dotted(last.func) == "headers_match" and [dotted(a) for a in last.args] == ["signature.headers", "packet_signature.headers"] and not last.keywords):
+        fail(last, "the last conjunct must be headers_match(signature.headers, packet_signature.headers)")
+    for v in vals[:-1]:
+        for n in ast.walk(v):
+            if isinstance(n, ast.Call) and dotted(n.func) == "headers_match":
+                fail(v, "headers_match in a non-final position")
+    cond = " && ".join(conj(v) for v in vals[:-1]) or "true"
+    out.append("Definition gen_http_signatures_match (s : http_sig) (ver : Z) (hs : list pkt_header) : res bool :=\n"
+               "  if (%s)\n  then gen_headers_match (S (length hs)) (hs_headers s) hs\n  else (Ok false)." % cond)
     return "\n".join(out)
 
 
